@@ -411,6 +411,14 @@ def rule_idx(ctx, rep):
                 if key in audit:
                     how = 'audit'
                     rep.audit_used.append({'key': key, 'reason': audit[key]['reason'], 'backing': audit[key].get('backing')})
+                    chk = audit[key].get('check')
+                    if chk:
+                        bad = backing_check(model, chk)
+                        rep.obligation('R-IDX', bad is None, {'site': fi.short, 'backing invariant': chk, 'result': bad or 'holds'})
+                        if bad is not None:
+                            rep.find('R-IDX', fi.short, '%s:%s:backing' % (kind, text),
+                                     'the audited site %s in %s relies on an invariant that no longer holds: %s'
+                                     % (_txt(site)[:60], fi.short, bad), loc(unit, site))
             by_how[how or 'UNDISCHARGED'] = by_how.get(how or 'UNDISCHARGED', 0) + 1
             rep.obligation('R-IDX', how is not None, {'site': fi.short, 'op': kind, 'expr': _txt(site)[:70], 'discharged_by': how})
             if how is None:
@@ -446,6 +454,45 @@ def _protocol_tuple(model, fi, value, want):
                 return False
             arities.append(a)
     return bool(arities) and all(a == want for a in arities)
+
+
+_backing_cache = {}
+
+
+def backing_check(model, chk):
+    """Decide the invariant an audit entry leans on (regex group cannot be empty / stays within a language)."""
+    key = repr(sorted(chk.items()))
+    if key in _backing_cache:
+        return _backing_cache[key]
+    from .. import rx
+    from ..interp import Interp, RxVal
+    res = None
+    try:
+        cls_short, attr = chk['rx'].rsplit('.', 1)
+        pat = Interp(model).class_attr(model.cls(cls_short), attr)
+        if not isinstance(pat, RxVal):
+            res = '%s is not a regex literal' % chk['rx']
+        else:
+            g = chk.get('group', 0)
+            lo, hi = rx.width(pat.pattern, pat.flags) if g == 0 else rx.group_width(pat.pattern, g, pat.flags)
+            if lo < chk.get('min_width', 1):
+                res = 'group %d of %s (%r) can be empty' % (g, chk['rx'], pat.pattern)
+            elif chk.get('group_language_within'):
+                A = rx.ALPHABET_CORE
+                sub = rx._find_group(rx.parse(pat.pattern, pat.flags), g)
+                b = rx.Builder(A, pat.flags)
+                s0, e0 = b.seq(sub, first=True)
+                b.nfa.start, b.nfa.accept = s0, e0
+                L = rx.Lang.__new__(rx.Lang)
+                L.pattern, L.mode, L.alphabet, L.name, L.nfas = 'group', 'full', frozenset(A), 'group', [b.nfa]
+                S = rx.Lang(chk['group_language_within'], mode='full', alphabet=A)
+                w = rx.witness([L], [S], A)
+                if w is not None:
+                    res = 'group %d of %s can match %r, outside %s' % (g, chk['rx'], w, chk['group_language_within'])
+    except Exception as e:      # an unanalysable pattern is a failed backing check, not a pass
+        res = 'backing check could not be decided: %s' % e
+    _backing_cache[key] = res
+    return res
 
 
 def _in_annotation(node, fnode):
